@@ -60,6 +60,7 @@ fn check(consumed: usize, has_front: bool, has_back: bool, via_object_protocol: 
     assert!(pull(&mut p, vm) == expect(1), "C13.peekable: second pull");
     assert!(pull(&mut p, vm) == expect(2), "C13.peekable: third pull");
     std::mem::forget(p);
+    kani::cover!(true, "the end of the harness is reached past every obligation");
 }
 
 // @props C13
